@@ -500,6 +500,219 @@ def install_acl():
         _wrap_acl_op(Acl, name, act, is_setter=True)
 
 
+# ------------------------------------------------------------------ address containment -> Trace_C13
+
+def _addr_side(a):
+    toks = lex.lex(a.line)
+    mem = [lex.lex(m.line) for m in a.items] if getattr(a, "items", None) else []
+    return toks, mem
+
+
+def install_addr():
+    from cisco_acl import Address, AddressAg, AddrGroup
+
+    def rec_subnet(self, args, kw, ret, exc):
+        other = args[0] if args else kw.get("other")
+        if other is None or type(other) is not type(self) or self.platform != other.platform or self.platform not in ("ios", "nxos"):
+            return _skip()
+        bt, bm = _addr_side(self)
+        tt, tm = _addr_side(other)
+        e = dict(tid=0, i=0, act="SubnetOf", cls=type(self).__name__, plat=self.platform, btoks=bt, bmem=bm, ttoks=tt, tmem=tm,
+                 exc=core.exc_name(exc) if exc is not None else "", ret=bool(ret) if exc is None else False, src="tests")
+        _emit("Trace_C13", None, e)
+    for cls in (Address, AddressAg):
+        _wrap_method(cls, "subnet_of", rec_subnet)
+
+    def rec_in_member(self, args, kw, ret, exc):       # other in self  (both members)
+        other = args[0] if args else None
+        if type(other) is not AddressAg or self.platform != other.platform or self.platform not in ("ios", "nxos"):
+            return _skip()
+        e = dict(tid=0, i=0, act="In", cls="AddressAg", plat=self.platform, btoks=lex.lex(other.line), bmem=[], ttoks=lex.lex(self.line), tmem=[],
+                 exc=core.exc_name(exc) if exc is not None else "", ret=bool(ret) if exc is None else False, src="tests")
+        _emit("Trace_C13", None, e)
+    _wrap_method(AddressAg, "__contains__", rec_in_member)
+
+    def rec_in_group(self, args, kw, ret, exc):        # other in group
+        other = args[0] if args else None
+        if type(other) is not AddressAg or self.platform != other.platform or self.platform not in ("ios", "nxos"):
+            return _skip()
+        if not all(type(m) is AddressAg for m in self.items):
+            return _skip()
+        e = dict(tid=0, i=0, act="InGroup", cls="AddressAg", plat=self.platform, btoks=lex.lex(other.line), bmem=[], ttoks=[],
+                 tmem=[lex.lex(m.line) for m in self.items], exc=core.exc_name(exc) if exc is not None else "",
+                 ret=bool(ret) if exc is None else False, src="tests")
+        _emit("Trace_C13", None, e)
+    _wrap_method(AddrGroup, "__contains__", rec_in_group)
+
+
+# ------------------------------------------------------------------ module-level functions: collapse -> Trace_C14, range_* -> Trace_C18
+
+def _wrap_func(mod, name, pre, post, also=()):
+    orig = getattr(mod, name)
+
+    def fn(*args, **kw):
+        if _busy[0]:
+            return orig(*args, **kw)
+        _busy[0] += 1
+        try:
+            ctx = None
+            try:
+                ctx = pre(args, kw)
+            except Exception:  # noqa
+                ctx = None
+            if ctx is None:
+                _skip()
+            ret, exc = None, None
+            try:
+                ret = orig(*args, **kw)
+                return ret
+            except Exception as ex:
+                exc = ex
+                raise
+            finally:
+                if ctx is not None:
+                    try:
+                        post(ctx, args, kw, ret, exc)
+                    except Exception:  # noqa
+                        _skip()
+        finally:
+            _busy[0] -= 1
+    setattr(mod, name, fn)
+    for m in also:
+        if getattr(m, name, None) is orig:
+            setattr(m, name, fn)
+
+
+def install_funcs():
+    import cisco_acl
+    from cisco_acl import Address, AddressAg, address, address_ag, functions
+
+    def collapse_pre(cls):
+        def pre(args, kw):
+            objs = args[0] if args else kw.get("addresses")
+            if not isinstance(objs, (list, tuple)) or len(args) + len(kw) != 1:
+                return None
+            mine = [o for o in objs if type(o) is cls]
+            plats = {o.platform for o in mine}
+            if len(plats) > 1 or (plats and next(iter(plats)) not in ("ios", "nxos")) or not mine:
+                return None
+            if any(getattr(o, "items", None) for o in mine) or any(o.type == "addrgroup" for o in mine if hasattr(o, "type")):
+                return None       # grouped operands: outside C14's domain
+            return dict(objs=list(objs), mine=mine, plat=mine[0].platform, before=[o.line for o in objs if hasattr(o, "line")],
+                        inp=[lex.lex(o.line) for o in mine])
+        return pre
+
+    def collapse_post(cls):
+        def post(ctx, args, kw, ret, exc):
+            e = dict(tid=0, i=0, act="Collapse", cls=cls.__name__, plat=ctx["plat"], inp=ctx["inp"], foreign=len(ctx["mine"]) != len(ctx["objs"]),
+                     exc=core.exc_name(exc) if exc is not None else "", out=[], notes_empty=True, same_kind=True, src="tests")
+            if exc is None:
+                e["out"] = [lex.lex(o.line) for o in ret]
+                e["notes_empty"] = all(o.note in ("", None) for o in ret)
+                e["same_kind"] = all(type(o) is cls and o.platform == ctx["plat"] for o in ret)
+                if [o.line for o in ctx["objs"] if hasattr(o, "line")] != ctx["before"]:
+                    e["same_kind"] = False
+            _emit("Trace_C14", None, e)
+        return post
+    _wrap_func(address, "collapse", collapse_pre(Address), collapse_post(Address))
+    _wrap_func(address_ag, "collapse", collapse_pre(AddressAg), collapse_post(AddressAg))
+
+    from harness.c18 import req_items
+
+    def ports_pre(args, kw):
+        names = ["srcports", "dstports", "line", "platform", "port_nr", "port_count", "port_range"]
+        k = dict(zip(names, args))
+        k.update(kw)
+        if not set(k) <= set(names):
+            return None
+        plat = k.get("platform") or "ios"
+        if plat not in ("ios", "nxos") or not isinstance(k.get("line", ""), str):
+            return None
+        k = dict(srcports=k.get("srcports", ""), dstports=k.get("dstports", ""), line=k.get("line", "permit tcp any any"), platform=plat,
+                 port_nr=bool(k.get("port_nr", False)), port_count=k.get("port_count", 1), port_range=bool(k.get("port_range", True)))
+        if not (isinstance(k["port_count"], int) and not isinstance(k["port_count"], bool) and 0 <= k["port_count"] <= 100):
+            return None
+        return dict(k=k, srcreq=req_items(k["srcports"]), dstreq=req_items(k["dstports"]))
+
+    def ports_post(ctx, args, kw, ret, exc):
+        k = ctx["k"]
+        e = dict(tid=0, i=0, act="Ports", plat=k["platform"], tpl=lex.lex(k["line"]), exc=core.exc_name(exc) if exc is not None else "", out=[], nsrc=0,
+                 srcreq=ctx["srcreq"], dstreq=ctx["dstreq"], port_count=k["port_count"] or 0, port_range=k["port_range"], port_nr=k["port_nr"],
+                 protocol_nr=False, protoreq=[], src="tests")
+        if exc is None:
+            e["out"] = [lex.lex(x) for x in ret]
+            if k["srcports"] and k["dstports"]:
+                e["nsrc"] = len(functions.range_ports(**dict(k, dstports="")))
+            elif k["srcports"]:
+                e["nsrc"] = len(ret)
+        _emit("Trace_C18", None, e)
+    _wrap_func(functions, "range_ports", ports_pre, ports_post, also=(cisco_acl,))
+
+    def protos_pre(args, kw):
+        if args or not set(kw) <= {"protocols", "line", "platform", "protocol_nr"}:
+            return None
+        plat = kw.get("platform") or "ios"
+        if plat not in ("ios", "nxos") or not isinstance(kw.get("protocols", ""), str) or not isinstance(kw.get("line", ""), str):
+            return None
+        return dict(plat=plat, line=kw.get("line", "permit tcp any any"), protocol_nr=bool(kw.get("protocol_nr", False)), protoreq=req_items(kw.get("protocols", "")))
+
+    def protos_post(ctx, args, kw, ret, exc):
+        e = dict(tid=0, i=0, act="Protocols", plat=ctx["plat"], tpl=lex.lex(ctx["line"]), exc=core.exc_name(exc) if exc is not None else "", out=[], nsrc=0,
+                 srcreq=[], dstreq=[], port_count=1, port_range=True, port_nr=False, protocol_nr=ctx["protocol_nr"], protoreq=ctx["protoreq"], src="tests")
+        if exc is None:
+            e["out"] = [lex.lex(x) for x in ret]
+        _emit("Trace_C18", None, e)
+    _wrap_func(functions, "range_protocols", protos_pre, protos_post, also=(cisco_acl,))
+
+
+# ------------------------------------------------------------------ AceGroup / AddrGroup .resequence -> Trace_C10 (pairs: Given, call)
+
+def install_reseq():
+    from cisco_acl import AceGroup, AddrGroup
+    from harness import c10
+
+    def wrap(cls):
+        orig = cls.resequence
+
+        def resequence(self, *args, **kw):
+            if _busy[0] or type(self) is not cls:
+                return orig(self, *args, **kw)
+            _busy[0] += 1
+            try:
+                before = None
+                try:
+                    s = args[0] if args else kw.get("start", 10)
+                    d = args[1] if len(args) > 1 else kw.get("step", 10)
+                    if len(args) <= 2 and set(kw) <= {"start", "step"} and _is_int(s) and _is_int(d) and abs(s) < 2 ** 40 and abs(d) < 2 ** 40:
+                        before = c10.proj(self)
+                    else:
+                        _skip()
+                except Exception:  # noqa
+                    before = None
+                ret, exc = None, None
+                try:
+                    ret = orig(self, *args, **kw)
+                    return ret
+                except Exception as ex:
+                    exc = ex
+                    raise
+                finally:
+                    if before is not None:
+                        try:
+                            key = ("reseq", _seq[0] + 1)
+                            e = dict(tid=0, i=1, act="Resequence", s=lex.limbs(s), d=lex.limbs(d), exc=core.exc_name(exc) if exc is not None else "",
+                                     ret=lex.limbs(int(ret)) if exc is None else [0, 0], obs=c10.proj(self), src="tests")
+                            _emit("Trace_C10", key, dict(tid=0, i=0, act="Given", s=[0, 0], d=[0, 0], exc="", ret=[0, 0], obs=before, src="tests"))
+                            _emit("Trace_C10", key, e)
+                        except Exception:  # noqa
+                            _skip()
+            finally:
+                _busy[0] -= 1
+        cls.resequence = resequence
+    wrap(AceGroup)
+    wrap(AddrGroup)
+
+
 def dump():
     if not OUT:
         return
@@ -527,6 +740,9 @@ def pytest_configure(config):
     if OUT:
         install()
         install_acl()
+        install_addr()
+        install_funcs()
+        install_reseq()
 
 
 def pytest_unconfigure(config):
